@@ -24,6 +24,7 @@ import (
 	"github.com/olric-data/olric/internal/discovery"
 	"github.com/olric-data/olric/internal/protocol"
 	"github.com/olric-data/olric/internal/stats"
+	"github.com/olric-data/olric/internal/verifhook"
 	"github.com/olric-data/olric/pkg/storage"
 )
 
@@ -318,6 +319,9 @@ func (dm *DMap) getOnCluster(hkey uint64, key string) (storage.Entry, error) {
 		return nil, ErrKeyNotFound
 	}
 
+	if verifhook.Enabled {
+		verifhook.Point("get.afterLookup", dm.s.rt.This().String(), key)
+	}
 	if dm.s.config.ReadRepair {
 		// Parallel read operations may propagate different versions of
 		// the same key/value pair. The rule is simple: last write wins.
